@@ -4,6 +4,12 @@
   `GLine {buf, idx : Int}`), are equal to the hand-written functions of Model/Fastlog.lean that C20's theorems are
   about: for every model line `l` (2048-byte buffer, cursor `l.idx`) and every argument,
   `gen<F> (G l) args = liftG (Model.<f> l args)` — same buffer, same cursor, same panics, never out of fuel.
+
+  Go's `int` cursor and the model's `Nat` cursor: `l.index--` is the only statement that could separate them.  In
+  `ByteArray`, `StringArray` and `IPArray` it is directly followed by `appendByte`, so at cursor 0 Go stores at index −1
+  (panic) where the model's `decIdx` panics one step earlier — the same outcome (`dec_append`).  In `appendIP6` it is the
+  last statement; there `ip6Loop_pos` proves that the cursor is ≥ 1 whenever the decrement is executed (the last group was
+  just written with its ':'), so the ties need no hypothesis on the cursor.  `String` steps back only at cursor 2048.
 -/
 import PacketVerif.Lemmas.FastlogLoops
 namespace PV.Props.C20Tie
@@ -629,5 +635,12 @@ example : (genLine_Uint16 (G ⟨Buf.fill 0, 0⟩) [0x70] 443) =
     liftG (uint16 ⟨Buf.fill 0, 0⟩ [0x70] 443) := uint16_tie _ _ _
 /-- non-vacuity: at a full buffer the regenerated `appendByte` panics, as the model does -/
 example : genLine_appendByte (G ⟨Buf.fill 0, 2048⟩) 1 = .panic := by rw [appendByte_tie]; rfl
+
+/-- non-vacuity: the regenerated `appendIP6` of `2001:db8::1` on an empty line equals the model's rendering (and is not a panic) -/
+example : genLine_appendIP6 (G ⟨Buf.fill 0, 0⟩) [0x20, 0x01, 0x0d, 0xb8, 0, 0, 0, 0, 0, 0, 0, 0, 0, 0, 0, 1] =
+    liftG (appendIP6 ⟨Buf.fill 0, 0⟩ [0x20, 0x01, 0x0d, 0xb8, 0, 0, 0, 0, 0, 0, 0, 0, 0, 0, 0, 1]) := appendIP6_tie _ _
+/-- non-vacuity: `ByteArray` with 20 bytes left truncates (marker at the buffer end, cursor parked at 2047) in both -/
+example : genLine_ByteArray (G ⟨Buf.fill 0, 2028⟩) [0x61] [1, 2, 3, 4, 5, 6, 7, 8] =
+    liftG (byteArray ⟨Buf.fill 0, 2028⟩ [0x61] [1, 2, 3, 4, 5, 6, 7, 8]) := byteArray_tie _ _ _
 
 end PV.Props.C20Tie
